@@ -54,6 +54,7 @@ HEADER = '''#![feature(allocator_api)]
 #![feature(sized_hierarchy)]
 #![allow(unused_imports, unused_variables, dead_code, unused_mut, unused_parens, unused_braces)]
 use vstd::prelude::*;
+use vstd::std_specs::iter::IteratorSpec;
 use std::rc::Rc;
 use std::cmp::Ordering;
 use std::mem;
